@@ -7,6 +7,8 @@
     zero-duration corner;
   * `C16_blockUpdate_flag_partial`: the bypassable flag agrees with "every action that started or
     updated the blocking allowed bypass" as long as the blocking was bypassable so far (or is new);
+  * `C16_flag_deviation_iff`: F7 characterised exactly — the code's flag differs from the
+    property's iff a bypass action updates a blocking that did not allow bypass;
   * `C16_flag_deviates` (F7) and `C16_zero_duration_deviates` (F11): the two corners where the
     code is *not* the contract, as theorems about the model (the monitor reports them on the
     implementation);
@@ -78,6 +80,38 @@ theorem C16_blockUpdate_flag_partial (cur : Option Blk) (t : Int) (durNs : Nat) 
       by_cases hg : t + (durNs : Int) > b.expiry
       · simp [blockUpdate, blockSpec, codeState, hg, hb]
       · simp [blockUpdate, blockSpec, codeState, hg, hb]
+
+/-- **F7 characterised exactly.**  Starting from a state in which the code's flag agrees with the
+    property's "all allowed bypass", one due BlockOutgoing makes them disagree *iff* it is a bypass
+    action that updates (replaces or extends) a blocking that did not allow bypass: the code's
+    rule sets the flag to the bypass of the latest updating action (as the API contract words it),
+    the property's keeps it false. -/
+theorem C16_flag_deviation_iff (cur : Option Blk) (t : Int) (durNs : Nat) (bypass replace : Bool)
+    (h : cur.isSome ∨ 0 < durNs ∨ replace = true) :
+    (some (blockUpdate (codeState cur).1 (codeState cur).2 t durNs bypass replace).2 ≠
+        (blockSpec cur t durNs bypass replace).map (·.allBypass)) ↔
+    ∃ b, cur = some b ∧ b.allBypass = false ∧ bypass = true ∧ (replace = true ∨ t + (durNs : Int) > b.expiry) := by
+  cases cur with
+  | none =>
+    have := C16_blockUpdate_flag_partial none t durNs bypass replace h (by intro b hb; cases hb)
+    constructor
+    · intro hne; exact absurd this hne
+    · rintro ⟨b, hb, _⟩; cases hb
+  | some b =>
+    cases hab : b.allBypass with
+    | true =>
+      have := C16_blockUpdate_flag_partial (some b) t durNs bypass replace h (by intro b' hb'; cases hb'; exact hab)
+      constructor
+      · intro hne; exact absurd this hne
+      · rintro ⟨b', hb', hf, _⟩; cases hb'; rw [hab] at hf; cases hf
+    | false =>
+      cases replace with
+      | true =>
+        cases bypass <;> simp [blockUpdate, blockSpec, codeState, hab]
+      | false =>
+        by_cases hg : t + (durNs : Int) > b.expiry
+        · cases bypass <;> simp [blockUpdate, blockSpec, codeState, hab, hg]
+        · cases bypass <;> simp [blockUpdate, blockSpec, codeState, hab, hg]
 
 /-- **F7 as a theorem about the model**: a non-bypassable blocking extended by a bypass action
     becomes bypassable in the code, but not under the property. -/
